@@ -259,6 +259,7 @@ Proof.
   - pose proof (end_patch_frame _ _ _ H) as [_ R]. unfold rest in R.
     exact (f_equal (fun x => fst (fst (fst x))) R).
   - destruct (mem_n (e_hook e) (meta s)); inversion H; reflexivity.
+  - destruct (rev (meta s)); inversion H; reflexivity.
   - match type of H with (if ?c then _ else _) = _ => destruct c end; inversion H; reflexivity.
 Qed.
 Lemma run_fsteps_cwd : forall e tk steps exc s, cwd (fst (run_fsteps e tk steps exc s)) = cwd s.
@@ -499,7 +500,7 @@ Lemma run_op_mods : forall e o s m0, stacked m0 (mods s) ->
   | _ => True
   end -> stacked m0 (mods (run_op e o s)).
 Proof.
-  intros e o s m0 S H; destruct o as [k [|n|k']|k|d|n kd|n|d|k c]; cbn [run_op]; auto.
+  intros e o s m0 S H; destruct o as [k [|n|k']|k|d|n kd|n|d|k c|fr h]; cbn [run_op]; auto.
   - destruct (get k' s); exact S.
   - destruct (do_chdir_facts (fake_of outer_patched outer_base k_chdir) (e_real_chdir e) d s) as (_ & _ & _ & M & _).
     rewrite M; exact S.
@@ -603,7 +604,7 @@ Definition C13_full_statement : Prop :=
 
 (* Every script, every ending: the process survives and the listed state is what it was.  What is
    left as guards: the host's os.chdir/os._exit are not aliased under another modelled attribute; the
-   hook object is new; host modules are plain, fake names unused, the script's module operations
+   hook object is new; the script registers no finder of its own on sys.meta_path; host modules are plain, fake names unused, the script's module operations
    stay off host modules; os.path.abspath still works when the script ends. *)
 Theorem setup_py_partial : forall root hook cy p s,
   let e := mk_env root hook cy false s in
@@ -613,11 +614,11 @@ Theorem setup_py_partial : forall root hook cy p s,
   (cy = true -> get k_cythonize s <> None) ->
   forallb (fun m => is_plain (snd m)) (mods s) = true ->
   (forall n, In n fake_names -> mmem n (mods s) = false) ->
-  mod_ops_ok (mods s) (fst p) -> callable e sp = true ->
+  mod_ops_ok (mods s) (fst p) -> no_meta_ins (fst p) -> callable e sp = true ->
   exists s', analyse root hook cy false p s = Alive s' /\
     listed_state (effective_keys s) s' = listed_state (effective_keys s) s.
 Proof.
-  intros root hook cy p s e sp HC HE HK CY PL FK MO CA.
+  intros root hook cy p s e sp HC HE HK CY PL FK MO NM CA.
   unfold sp, pre_exit_state in CA. change (e_root e) with root in CA.
   set (s0 := with_vcwd root s) in *.
   pose proof (patch_enter_rest outer_patched outer_base s0) as R1.
@@ -640,7 +641,8 @@ Proof.
   destruct (enter_parse_rest _ _ _ _ EP FK1) as (P2 & M2 & S2 & SP).
   rewrite D1 in S2.
   assert (M3 : meta (fst (body e p s2)) = meta s2).
-  { unfold body. cbn [fst]. rewrite run_ops_meta.
+  { unfold body. cbn [fst].
+    rewrite run_ops_meta by (destruct (eff_ops_cases p) as [E|E]; rewrite E; [intros f h []|exact NM]).
     destruct (do_chdir_facts (fake_of outer_patched outer_base k_chdir) (e_real_chdir e) (e_root e)
                 (if path_insert_in_try then with_path (e_root e :: path s2) s2 else s2)) as (_ & _ & M & _).
     rewrite M. destruct path_insert_in_try; reflexivity. }
